@@ -1,6 +1,7 @@
 package k
 
 import (
+	"encoding/json"
 	"fmt"
 	"math"
 	"math/rand"
@@ -58,6 +59,8 @@ type Profile struct {
 	PFine float64
 	// HotP: probability that a promise operation addresses the run's hot id
 	HotP float64
+	// KeyCase: idempotency keys come in case variants
+	KeyCase bool
 	// PExtremeTimeout: share of creates whose absolute deadline is at an end of the int64 range
 	PExtremeTimeout float64
 	// PHostileRecv: share of receivers (registrations, routing tags) the transports cannot use
@@ -93,6 +96,7 @@ type Gen struct {
 	wReq, wTick int
 	nSettle     int
 	nGadget     int
+	nDiskFull   int
 	nFaultSettle int
 	nCollide    int
 	wWork, wDel map[string]int
@@ -137,6 +141,10 @@ func (p *Profile) DrawConfig(r *rand.Rand) Config {
 	}
 	if r.Intn(2) == 0 {
 		cfg.Targets = []Target{{Name: "tgt", Type: "poll", Data: []byte(`{"group":"tg","id":"t1"}`)}, {Name: "web", Type: "http", Data: []byte(`{"url":"http://web.test/hook"}`)}}
+		if r.Intn(3) == 0 {
+			// routing sources with keys of the operator's own (the built-in resonate:invoke source stays last)
+			cfg.Sources = []Source{{Name: "s1", Type: "tag", Data: []byte(`{"key":"route:first"}`)}, {Name: "s2", Type: "tag", Data: []byte(`{"key":"route:second"}`)}}
+		}
 		if r.Intn(2) == 0 {
 			// the operator may redefine the built-in name
 			cfg.Targets = append(cfg.Targets, Target{Name: "default", Type: "http", Data: []byte(`{"url":"http://default.test/in"}`)})
@@ -174,6 +182,11 @@ func (g *Gen) val() *string {
 }
 
 func (g *Gen) key() *string {
+	if g.P.KeyCase && g.R.Intn(3) == 0 {
+		// keys that differ only in letter case are different keys
+		k := pick(g.R, []string{"K0", "k0", "K1"})
+		return &k
+	}
 	switch g.R.Intn(4) {
 	case 0:
 		return nil
@@ -249,6 +262,15 @@ func (g *Gen) createSpec(kind string) *ReqSpec {
 	tags := map[string]string{}
 	if g.R.Float64() < g.P.PTimeoutTg {
 		tags["resonate:timeout"] = pick(g.R, []string{"true", "true", "false"})
+	}
+	if len(g.S.Cfg.Sources) > 0 && g.R.Intn(2) == 0 {
+		// the operator configured routing sources of its own: use their keys (one, the other, both)
+		for _, src := range g.S.Cfg.Sources {
+			var c struct{ Key string }
+			if json.Unmarshal(src.Data, &c) == nil && c.Key != "" && g.R.Intn(2) == 0 {
+				tags[c.Key] = pick(g.R, routingTags)
+			}
+		}
 	}
 	if g.R.Float64() < g.P.PRouted || (kind == "CreatePromiseAndTask" && g.R.Intn(4) != 0) {
 		tags["resonate:invoke"] = pick(g.R, routingTags)
@@ -755,6 +777,15 @@ func (g *Gen) Next() Step {
 		}})
 	}
 	cs = append(cs, cand{g.wTick, func() Step { return Step{Op: "tick", Dt: g.dt()} }})
+	// the disk fills up while requests are in flight: writes fail (for a while or for good), reads go on
+	if g.faults && g.nDiskFull < 1 && r.Intn(4) == 0 {
+		cs = append(cs, cand{2, func() Step {
+			g.nDiskFull++
+			s.Probes["disk_full_period"]++
+			g.queue = append(g.queue, Step{Op: pick(r, []string{"drain", "settle", "tick"}), Rounds: 1})
+			return Step{Op: "diskfull", N: pick(r, []int{3, 10, 40, 0, 0})}
+		}})
+	}
 	// whole background periods with store/router/sender failures inside them
 	if g.faults && g.nFaultSettle < 2 {
 		cs = append(cs, cand{2, func() Step {
@@ -903,6 +934,10 @@ func (g *Gen) Next() Step {
 				if sub == "store" && g.faults && r.Float64() < g.P.PSql {
 					where := pick(r, []string{"stmt", "stmt", "stmt", "commit", "begin"})
 					st.Sql = &faultdb.Fault{Where: where, At: r.Intn(6), Err: pick(r, []string{"full", "ioerr", "busy"})}
+					if where == "commit" && r.Intn(3) == 0 {
+						// the transaction's deadline passed: rolled back, Commit says "transaction has already been committed or rolled back"
+						st.Sql.Err = "txdone"
+					}
 				}
 				if sub == "store" && g.crashes && r.Float64() < g.P.PCrash*3 {
 					st.CrashAt = pick(r, []string{"mid", "before", "after", "after"})
